@@ -610,3 +610,106 @@ Qed.
 
 Lemma default_policy_never_panics oob rnd a o : p_backoff (default_policy oob rnd) a o <> BPanic.
 Proof. exact (exp_backoff_never_panics oob rnd default_eparams a o). Qed.
+
+(* ------------------------------------------------------------------ *)
+(* The acceptor used by the correspondence run admits every value the model of
+   ExponentialBackoff can produce (so an observed pause it rejects is outside the
+   model), for a random source within its range and a float conversion that is
+   not positive below -2^63. *)
+
+Lemma tol_a_pos e attempt : 2 <= tol_a e attempt.
+Proof. unfold tol_a. lia. Qed.
+Lemma tol_n_pos e attempt : 2 <= tol_n e attempt.
+Proof. unfold tol_n. lia. Qed.
+
+Lemma f2i_in_range oob q : - two63 <= qtrunc q < two63 -> f2i oob q = qtrunc q.
+Proof.
+  intro H. unfold f2i. cbv zeta.
+  destruct ((- two63 <=? qtrunc q) && (qtrunc q <? two63)) eqn:E; [reflexivity|].
+  apply andb_false_iff in E. destruct E as [E|E]; [apply Z.leb_gt in E|apply Z.ltb_ge in E]; lia.
+Qed.
+
+Lemma f2i_nonpos oob q :
+  (forall q', qtrunc q' < - two63 -> oob q' <= 0) -> qtrunc q <= 0 -> f2i oob q <= 0.
+Proof.
+  intros Hoob H. unfold f2i. cbv zeta.
+  destruct ((- two63 <=? qtrunc q) && (qtrunc q <? two63)) eqn:E; [exact H|].
+  apply Hoob. apply andb_false_iff in E.
+  destruct E as [E|E]; [apply Z.leb_gt in E|apply Z.ltb_ge in E]; unfold two63 in *; lia.
+Qed.
+
+Lemma wrap64_id z : - two63 <= z < two63 -> wrap64 z = z.
+Proof. intro H. unfold wrap64, two64, two63 in *. rewrite Z.mod_small by lia. lia. Qed.
+
+Lemma exp_class_sound guarded oob rnd e attempt o :
+  (forall n, 0 < n -> 0 <= rnd n < n) ->
+  (forall q, qtrunc q < - two63 -> oob q <= 0) ->
+  match exp_class guarded e attempt o with
+  | ECPanic => exp_backoff_gen guarded oob rnd e attempt o = BPanic
+  | ECRange lo hi => exists d, exp_backoff_gen guarded oob rnd e attempt o = BRet d /\ lo <= d <= hi
+  | ECUnjudged => True
+  end.
+Proof.
+  intros Hrnd Hoob. unfold exp_class, exp_backoff_gen. cbv zeta.
+  destruct (retry_after_secs o >? 0); [eexists; split; [reflexivity|lia]|].
+  pose proof (tol_a_pos e attempt) as Hta. pose proof (tol_n_pos e attempt) as Htn.
+  set (a := qtrunc (exp_a e attempt)) in *. set (n := qtrunc (exp_n e attempt)) in *.
+  set (ta := tol_a e attempt) in *. set (tn := tol_n e attempt) in *.
+  destruct (qnear (exp_n e attempt) 1); [exact I|].
+  destruct (two63 - tn <=? n) eqn:E1; [exact I|]. apply Z.leb_gt in E1.
+  destruct (n <=? 0) eqn:E2.
+  - apply Z.leb_le in E2.
+    assert (Hn : f2i oob (exp_n e attempt) <= 0) by (apply f2i_nonpos; assumption).
+    destruct (f2i oob (exp_n e attempt) >? 0) eqn:E3; [lia|].
+    destruct guarded; [|reflexivity].
+    destruct ((- two63 + ta <? a) && (a + ta <? two63)) eqn:E4; [|exact I].
+    apply andb_true_iff in E4. destruct E4 as [E4 E5]. apply Z.ltb_lt in E4, E5.
+    rewrite f2i_in_range by (fold a; lia). fold a. eexists; split; [reflexivity|lia].
+  - apply Z.leb_gt in E2.
+    destruct ((- two63 + ta <? a) && (a + n + ta + tn <? two63)) eqn:E4; [|exact I].
+    apply andb_true_iff in E4. destruct E4 as [E4 E5]. apply Z.ltb_lt in E4, E5.
+    rewrite (f2i_in_range oob (exp_n e attempt)) by (fold n; unfold two63 in *; lia).
+    rewrite (f2i_in_range oob (exp_a e attempt)) by (fold a; lia). fold a n.
+    destruct (n >? 0) eqn:E3; [|lia].
+    specialize (Hrnd n E2). rewrite wrap64_id by lia.
+    eexists; split; [reflexivity|lia].
+Qed.
+
+Lemma clamp_mono lo hi x y : x <= y -> clamp lo hi x <= clamp lo hi y.
+Proof.
+  intro H. unfold clamp.
+  destruct (x <? lo) eqn:A; destruct (y <? lo) eqn:B;
+    repeat match goal with |- context [?u >? ?v] => destruct (u >? v) eqn:? end; lia.
+Qed.
+
+(* how the harness projects a decision: a negative duration reads as "no retry" *)
+Definition project_decision (d : decision) : obs_decision :=
+  match d with
+  | DStop => ODStop | DFail => ODFail | DPanic => ODPanic
+  | DWait x => if x <? 0 then ODStop else ODWait x
+  end.
+
+Lemma accept_decision_complete guarded oob rnd e maxretry minw maxw attempt o :
+  (forall n, 0 < n -> 0 <= rnd n < n) ->
+  (forall q, qtrunc q < - two63 -> oob q <= 0) ->
+  accept_decision guarded maxretry minw maxw e attempt o
+    (project_decision
+       (generic_retry (mkPolicy maxretry minw maxw default_predicate (exp_backoff_gen guarded oob rnd e))
+                      attempt o)) <> VNo.
+Proof.
+  intros Hrnd Hoob. unfold accept_decision, generic_retry. cbn [p_max_retry p_pred p_backoff p_min p_max].
+  destruct (attempt >=? maxretry); [discriminate|].
+  destruct (default_predicate o); try discriminate.
+  pose proof (exp_class_sound guarded oob rnd e attempt o Hrnd Hoob) as Hs.
+  destruct (exp_class guarded e attempt o) as [|lo hi|]; [|destruct Hs as (d & -> & Hd)|discriminate].
+  - rewrite Hs. discriminate.
+  - cbn [project_decision].
+    pose proof (clamp_mono minw maxw lo d (proj1 Hd)) as M1.
+    pose proof (clamp_mono minw maxw d hi (proj2 Hd)) as M2.
+    destruct (clamp minw maxw d <? 0) eqn:E.
+    + apply Z.ltb_lt in E. destruct (clamp minw maxw lo <? 0) eqn:E2; [discriminate|].
+      apply Z.ltb_ge in E2. lia.
+    + destruct ((clamp minw maxw lo <=? clamp minw maxw d) && (clamp minw maxw d <=? clamp minw maxw hi)) eqn:E2;
+        [discriminate|].
+      apply andb_false_iff in E2. destruct E2 as [E2|E2]; apply Z.leb_gt in E2; lia.
+Qed.
